@@ -198,6 +198,10 @@ impl<'a> Walk<'a> {
                     }
                 };
                 for text in [false, true] {
+                    // read_text decodes the span: only comparable when the document is valid UTF-8
+                    if text && std::str::from_utf8(self.bytes).is_err() {
+                        continue;
+                    }
                     let mut cl = r.clone();
                     let got = guarded_mut(|| {
                         let q = quick_xml::name::QName(&name);
@@ -212,7 +216,10 @@ impl<'a> Walk<'a> {
                         Ok(x) => x,
                         Err(p) => Err(Ev::Err(E::Panic(p))),
                     };
-                    if got != want {
+                    // an element that is not closed in the input: some error (how the missing end is worded, and
+                    // what happens when the name cannot be decoded for the message, is not C04's business)
+                    let unclosed = matches!(&want, Err(Ev::Err(E::MissingEndTag(_))));
+                    if (unclosed && got.is_ok()) || (!unclosed && got != want) {
                         self.violated = true;
                         let hist = self.history.join(", ");
                         self.acc.violation(
@@ -277,6 +284,33 @@ pub fn run(ctx: &Ctx) {
     let docs = count_upto(k, max_tokens);
     let seed = ctx.seed;
     let toks1 = tokens(1);
+    // names that are not valid UTF-8 and differ (a lone 0xE9, 0xE9 b): compared as bytes, shown as "" in errors
+    let toks_bad = tokens_of(b"\xE9", 1);
+    let bad_tokens: u32 = t.pick(4, 5);
+    ctx.layer(
+        "histories.undecodable_names",
+        2,
+        count_upto(k, bad_tokens) * 16,
+        json!({"names": ["\\xE9", "\\xE9b"], "max_tokens": bad_tokens, "max_flips": 1, "initial_settings": 16}),
+        |i, acc| {
+            let mut doc = Vec::new();
+            decode_upto(k, bad_tokens, i / 16, &mut doc);
+            let init = (i % 16) as u8;
+            let mut cfg = 0u8;
+            for (b, sw) in SWITCHES.iter().enumerate() {
+                if init & (1 << b) != 0 {
+                    cfg |= sw;
+                }
+            }
+            let bytes: Vec<u8> = doc.iter().flat_map(|&d| toks_bad[d as usize].iter().copied()).collect();
+            let mut reader = Reader::from_reader(&bytes[..]);
+            apply_cfg(reader.config_mut(), cfg);
+            acc.evaluations += 1;
+            let mut w = Walk { toks: &toks_bad, doc: &doc, bytes: &bytes, max_flips: 1, acc, order: (2, i), init_cfg: cfg, history: Vec::new(), violated: false };
+            let model = Model { stack: TagStack::default(), tok: 0, pending_end: None, pos: 0 };
+            w.go(&reader, &model, cfg, 0, false, false);
+        },
+    );
     // size thresholds of the name stack (a shared byte buffer indexed by offsets): the same walk with
     // the three names stretched to every length of the list
     let lens: Vec<usize> = t.pick(
